@@ -18,9 +18,13 @@ Verdict(r) ==
       wv    == [n \in all |-> AEval(r, n, r.exprs[1], 1)]
       must  == IF r.kind = "where" THEN { n \in all : wv[n].ok /\ IntCmp(r.wop, wv[n].v, r.wlit) } ELSE all
       may   == IF r.kind = "where" THEN { n \in all : ~wv[n].ok } ELSE {}
+      \* positions of the expression cells and of the literal cells in a row (keytext-before: the literals come first)
+      off   == IF r.kind = "keytext-before" THEN Len(r.lits) ELSE 0
+      loff  == IF r.kind = "keytext-before" THEN 0 ELSE Len(r.exprs)
       badCell == IF r.kind = "where" THEN {}
                  ELSE { <<i, j>> \in (1 .. Len(rows)) \X (1 .. Len(r.exprs)) :
-                          ids[i] # 0 /\ LET e == AEval(r, ids[i], r.exprs[j], 1) IN e.ok /\ ~CellIsInt(rows[i][j + 1], e.v) }
+                          ids[i] # 0 /\ LET e == AEval(r, ids[i], r.exprs[j], 1) IN e.ok /\ ~CellIsInt(rows[i][1 + off + j], e.v) }
+      badLit == { <<i, k>> \in (1 .. Len(rows)) \X (1 .. Len(r.lits)) : rows[i][1 + loff + k] # r.lits[k] }
       firstBad == CHOOSE p \in badCell : \A q \in badCell : p[2] <= q[2]
       y == IF r.obs.q.timed_out THEN "timeout" ELSE IF r.obs.q.panic THEN "crash"
            ELSE IF r.obs.q.status = 2 THEN "rejected-as-malformed"
@@ -29,6 +33,7 @@ Verdict(r) ==
            ELSE IF { ids[i] : i \in 1 .. Len(ids) } \ (must \cup may) # {} THEN "extra-row"
            ELSE IF must \ { ids[i] : i \in 1 .. Len(ids) } # {} THEN "missing-row"
            ELSE IF badCell # {} THEN "wrong-value-column" \o ToString(firstBad[2])
+           ELSE IF badLit # {} THEN "text-literal-shows-another-column"
            ELSE "ok"
   IN [id |-> r.id, ok |-> (y = "ok"), class |-> r.class, why |-> y, key |-> "C15/" \o r.class \o "/" \o y,
       nontrivial |-> (IF r.kind = "where" THEN must # {} /\ must # all
